@@ -605,10 +605,14 @@ const MALFORMED_ARGS: &[&str] = &[
     "\"a\", ignore()", "\"a\", ignore(case, case)", "\"a\", allow_greedy = maybe", "\"a\", allow_greedy = true, allow_greedy = false", "\"a\", callback", "\"a\", unknown = 3",
     "", "1", "\"a\" \"b\"", "\"a\",, f", "b'a'", "\"a\", |x y| 1", "\"a\", |lex|", "\"a\", ignore(ascii_case)", "\"a\", callback = |a, b| 1", "'a'", "\"a\", priority = -1",
     "\"a\", =", "\"a\", #", "\"a\", ?", "\"a\", ;", "\"a\", ::", "\"a\", ->", "\"a\", =>", "\"a\", @", "\"a\", ~", "\"a\", 'a", "\"a\",, f, priority = 2", "\"a\", priority = 2,, f", "\"a\", $",
+    // inline callbacks whose body is not an expression / a block
+    "\"a\", |lex| = 3", "\"a\", |lex| let x", "\"a\", |lex| #", "\"a\", |lex| ,", "\"a\", |lex| { let }", "\"a\", |lex| { = }", "\"a\", callback = |lex| =>", "\"a\", |lex| ..=", "\"a\", |lex| 1 2",
+    "\"a\", |lex| { 1 } }", "\"a\", |lex| else", "\"a\", priority = 2, callback = |lex| +",
     "\"a\", priority = 1.5", "\"a\", (f)", "\"a\", callback = f callback = g", "\"a\", ignore(case) priority = 3", "\"a\", f, callback = g", "\"a\", callback = f, priority = 2, callback = g",
 ];
 
 const MALFORMED_ITEMS: &[&str] = &[
+    "skip(\"a\", |lex| = 3)", "error(E, |lex| =)", "skip(\"a\", callback = |lex| { let })", "error(E, callback = |lex| #)",
     "skip(\"a\",, foo)", "error(E,, foo)", "skip(\"a\", =)", "error(E, #)", "skip(\"a\", ?)", "error(E, ->)", "skip(\"a\", callback = ,, f)",
     "extras = HashMap<String, u32>", "error = Result<u8, u8>", "extras = ", "error = ", "extras = 1 + 2", "error = 1 + 2", "crate = \"x\"", "crate = a::<b, c>", "crate = ",
     "écart = 1", "тип", "日本語(x)", "é", "ünicode = \"a\"", "skip(\"a\", прио = 1)", "error(E, обратный = f)", "subpattern ß = \"a\"", "type Ж = u8",
